@@ -29,6 +29,9 @@ def budget(tier):
 
 def build_case(R, tier, min_frags=1, classes=None, kinds=('$', '><')):
     big = (tier == 'thorough') and R.chance(0.4)
+    if classes is None and R.chance(0.08):
+        # (extra share for sulfur next to aromatic rings: 'Sc', 'Sn' letter pairs in the text)
+        classes = [c for c in molgen.MOL_CLASSES if c['name'] == 'thioaryl']
     m, cname = molgen.gen_mol_class(R, big=big, classes=classes)
     fclass = R.choice(['one', 'two', 'few', 'many'])
     lo, hi = {'one': (1, 1), 'two': (2, 2), 'few': (2, 4), 'many': (4, 7 if tier == 'thorough' else 5)}[fclass]
